@@ -85,6 +85,7 @@ type Violation struct {
 	Choices map[string]int
 	Inputs  []InputRec
 	Trace   []string
+	Sched   []SchedEvent
 }
 
 type PathResult struct {
@@ -208,6 +209,9 @@ type Interp struct {
 	boundsUsed map[string]int
 	known map[*sym.Term]bool
 	schedMode string
+	schedLog    []SchedEvent
+	handoffKind string
+	lastCallPos token.Pos
 }
 
 type hookFn func(fr *frame, args []Value) Value
@@ -672,6 +676,7 @@ func (in *Interp) reportViolation(kind, label, msg string, fr *frame, m sym.Mode
 		v.Choices[k] = x
 	}
 	v.Inputs = append(v.Inputs, in.inputs...)
+	v.Sched = append(v.Sched, in.schedLog...)
 	in.pathViolations++
 	in.shared.addViolation(v)
 }
@@ -697,6 +702,8 @@ func (in *Interp) resetPath() {
 	in.fs = nil
 	in.pathViolations = 0
 	in.schedMode = ""
+	in.schedLog = nil
+	in.handoffKind = ""
 	in.known = map[*sym.Term]bool{}
 	in.mapOrderOverride = ""
 	in.syncState = map[*Value]*syncObj{}
